@@ -12,6 +12,10 @@ def main():
     checks, na = [], []
     for pid in ids:
         p = props.PROPS.get(pid)
+        if p and p.get('claimed') and not p.get('drivers') and not p.get('contracts'):
+            p = None
+        if p and p.get('claimed') and p.get('needs_driver') and not p.get('drivers'):
+            p = dict(p, claimed=False, na_reason='bounded driver for the whole-program clauses still under construction')
         if not p or not p.get('claimed'):
             na.append({'property_id': pid, 'reason': (p or {}).get(
                 'na_reason', 'check under construction (no decision claimed yet)')})
